@@ -5,7 +5,9 @@ import (
 	"go/ast"
 	"go/printer"
 	"go/token"
+	"sort"
 	"strconv"
+	"strings"
 )
 
 // c06Expr prints an expression after replacing every identifier that the function defines exactly once by `x := e`
@@ -403,6 +405,57 @@ func c06NewSrcFormat() string {
 	return out
 }
 
+// c06FastPathMaps: the maps of the index that getOrCreateJournal READS with a key built from its raw text parameter (the
+// first string parameter: `m[tags]`, `m[tag.Line(tags)]`, …). `fast_path_sound` assumes the raw text is looked up in tmap only
+// (a second map keyed by the client's spelling is a memo that Delete and the roll-back do not know about).
+func c06FastPathMaps(fd *ast.FuncDecl) []string {
+	raw := ""
+	if fd.Type.Params != nil {
+		for _, fl := range fd.Type.Params.List {
+			if id, ok := fl.Type.(*ast.Ident); ok && id.Name == "string" && len(fl.Names) > 0 && raw == "" {
+				raw = fl.Names[0].Name
+			}
+		}
+	}
+	seen := map[string]bool{}
+	var names []string
+	assigned := map[*ast.IndexExpr]bool{}
+	ast.Inspect(fd.Body, func(n ast.Node) bool {
+		if as, ok := n.(*ast.AssignStmt); ok {
+			for _, lhs := range as.Lhs {
+				if ix, ok := lhs.(*ast.IndexExpr); ok {
+					assigned[ix] = true
+				}
+			}
+		}
+		return true
+	})
+	ast.Inspect(fd.Body, func(n ast.Node) bool {
+		ix, ok := n.(*ast.IndexExpr)
+		if !ok || assigned[ix] {
+			return true
+		}
+		se, ok := ix.X.(*ast.SelectorExpr)
+		if !ok {
+			return true
+		}
+		usesRaw := false
+		ast.Inspect(ix.Index, func(m ast.Node) bool {
+			if id, ok := m.(*ast.Ident); ok && id.Name == raw {
+				usesRaw = true
+			}
+			return true
+		})
+		if usesRaw && !seen[se.Sel.Name] {
+			seen[se.Sel.Name] = true
+			names = append(names, se.Sel.Name)
+		}
+		return true
+	})
+	sort.Strings(names)
+	return names
+}
+
 // c06CreateSite: the function that holds the create branch — getOrCreateJournal itself when it calls saveStateUnsafe()
 // directly, otherwise the first method of the same receiver called from it (depth <= 2) that does (a refactoring may move
 // "register the new descriptor and save" into a helper)
@@ -585,6 +638,18 @@ func init() {
 		l.p("/-- pkg/partition GetJournals: the failures of the visitor closure (journal not opened, limit reached) are assigned to a")
 		l.p("variable of the enclosing function that is tested after the visit, and the closure does not re-declare it -/")
 		l.p("def getJournalsVisitorErrorReachesCaller : Bool := %s", leanBool(c06VisitorError()))
+		fpm := []string{"tmap"}
+		if fd != nil {
+			fpm = c06FastPathMaps(fd)
+		}
+		l.p("/-- the maps getOrCreateJournal reads with a key built from its raw text parameter (the fast path) -/")
+		l.p("def fastPathMaps : List String := [%s]", func() string {
+			q := []string{}
+			for _, n := range fpm {
+				q = append(q, leanStr(n))
+			}
+			return strings.Join(q, ", ")
+		}())
 		l.p("/-- pkg/cursor crsr.ApplyState: `if … a.Query != b.Query … { return <error> }` — a cached cursor is refused for a request that")
 		l.p("carries another query text -/")
 		l.p("def applyStateChecksQuery : Bool := %s", leanBool(c06ApplyStateChecksQuery()))
